@@ -30,6 +30,20 @@ CLAIMED["C20"] = dict(
     technique="interprocedural taint + who-may-call over resolved MIR callees",
 )
 
+CLAIMED["C03"] = dict(
+    category="proof",
+    text=("Exactness by construction, modulo the robust crate: R3.1 GeoNum::Ker binding (floats -> RobustKernel, ints -> SimpleKernel); R3.2 "
+          "decision table of RobustKernel::orient2d (sign of robust::orient2d against literal zero, points passed unmodified in order) and "
+          "of the default kernel; R3.3 in the predicate family (Line/Triangle/Rect point tests, every calculate_coordinate_position, "
+          "coord_pos_relative_to_ring, bbox helpers, winding_order + least_index/lex_cmp, triangle_winding_order, line_intersection "
+          "classification, is_ccw, is_convex, the relate line intersector) no SwitchInt and no returned predicate value carries the label of a "
+          "rounded arithmetic result (interprocedural, parameter-sensitive taint over MIR); R3.4 every orient2d argument there and in the hull "
+          "code is a bit-copy of an input coordinate; R3.5 every Kernel call in geo is dispatched through the scalar's own kernel."),
+    design_ref="DESIGN.md §4 C03",
+    note="Trusted: robust::orient2d is a correct adaptive predicate; IEEE comparisons of inputs are exact; integer overflow excluded by the property's hypothesis; taint is flow-insensitive per body (over-approximates).",
+    technique="interprocedural taint (rounded arithmetic -> decision) + decision table of the kernel + who-may-call",
+)
+
 NOT_YET = "rule set not implemented in this revision of /verif (see DESIGN.md §7 build order); nothing is claimed"
 NA = {}
 
